@@ -4,7 +4,7 @@
 //!   N0  every store read cache and the transaction verification cache at capacity 0 (nothing is
 //!       ever cached),
 //!   N1  default capacities,
-//!   N2  capacity 1 everywhere (constant eviction).
+//!   N2  capacity 1 everywhere (constant eviction); every second boot without a header cache.
 //! N1 and N2 are not restarted between histories (their caches stay warm with the previous
 //! histories' transactions, headers, deleted and invalid blocks); a violation's replay file holds
 //! the whole sequence since their last boot.
@@ -129,7 +129,13 @@ fn boot_node(ctx: &Ctx, cons: &Consensus, idx: usize, generation: u64) -> Result
     let mut opts = NodeOpts::new(cons.clone()).with_pool();
     opts.assembler = false;
     opts.tx_pool_config = Some(pool_config());
-    opts.store_config = Some(store_config(store));
+    let mut sc = store_config(store);
+    // the caches are independent of each other: every second boot of the capacity-1 node and of the
+    // default node runs without a header cache (the part caches keep their capacity)
+    if (idx == 2 && generation % 2 == 0) || (idx == 1 && generation % 2 == 1) {
+        sc.header_cache_size = 0;
+    }
+    opts.store_config = Some(sc);
     let node = Node::boot(&dir, &opts)?;
     node.wait_startup()?;
     unsafe { std::env::remove_var("VERIF_TX_VERIFY_CACHE_SIZE") };
